@@ -410,3 +410,12 @@ Definition rtx_spec_mon (h16 c32 : list N -> N) (m i o : N) : option (N * bool) 
                   Bool.eqb (rtx_io_done w) (r && last_word) in
         Some (if r && last_word then 0 else m * RTX_B + w, ok)
   end.
+
+(* ---- transmitter -> DataPacketReceiver, as wired for the round-trip targets: the receiver watches the words the
+   transmitter's consumer accepts (sink.valid = source.valid & source.ready).  Packed outputs: the transmitter's
+   (39 bits), then the receiver's (s_data s_valid s_first s_last good bad header). *)
+Definition rt_step (U : crc_units) (lw : N) (s : rtx_state * drx_state) (i : N) : (rtx_state * drx_state) * N :=
+  let x := rtx_decode i in
+  let (s1, o1) := rtx_next U (fst s) x in
+  let (s2, o2) := drx_next U lw true (snd s) (x_valid o1 && i_ready x) (x_data o1) (x_ctrl o1) in
+  ((s1, s2), rtx_pack o1 + N.shiftl (drx_pack true o2) 39).
